@@ -95,6 +95,7 @@ def verify_function(ctx, key, c=None, only_case=None):
           if only_case is not None and lab != only_case:
               continue
           ex = Exec(ctx)
+          ex.lib.ABSTRACT_CAT[0] = bool(c.ghost.get("abstract_strings"))
           st = State(pathid=lab + ("~nl" if clause_sel and clause_sel[0] == "only" else ""))
           try:
               env = make_params(ex, c, case, st)
@@ -192,6 +193,9 @@ def finish_path(ex, c, env, entry, o, is_gen):
                  (to_z3(rv.n) == to_z3(n)) if ok else z3.BoolVal(False))
     senv = dict(env)
     senv["result"] = result
+    if is_gen:
+        g = o.ghost["out"]
+        senv["src_"] = Seq(g[0], o.ghost.get("out_src") or (lambda k: (-1, -1, -1)))
     for kname, v in o.ghost.items():
         if kname.startswith("view_"):
             senv[kname] = v
